@@ -23,7 +23,7 @@ ASSUMPTIONS = [
 _SP = ['identical', 'nested-shared-end', 'nested-interior', 'touch-same-piece', 'touch-corner', 'touch-seam',
        'disjoint-same-piece', 'disjoint-other-piece', 'disjoint-nearer-through-seam']
 REQUIRED = {t: ['space:' + s for s in _SP] + ['space:partial-overlap', 'time:equal', 'time:overlap', 'time:touch', 'time:separated',
-                'switch:quad', 'switch:exact', 'source:matrix', 'source:estimator-pairs', 'source:closed-form-direct',
+                'switch:quad', 'switch:exact', 'source:matrix', 'source:estimator-pairs', 'source:closed-form-direct', 'scale:tiny',
                 'curve:UnitSquare', 'curve:PiSquare', 'curve:LShape', 'curve:Circle', 'curve:UnitInterval']
             for t in ('quick', 'thorough')}
 TIMEOUT = {'quick': 1500, 'thorough': 7200}
@@ -292,6 +292,65 @@ def run_direct(spec, acc):
             if not (err <= TOL):
                 acc.violation('entry-inexact:%s:%s:%s' % (sr, tr, src), '%s = %.17g, reference %.17g, scaled error %.3e' % (src, val, ref, err),
                               dict(wit, source=src, computed=val, reference=ref))
+    # ---- very small elements (space level 10-16 on a unit side): relative positions as above, on closed curves, next to the
+    #      corner and the seam as well; exercises absolute tolerances hidden in comparisons (isclose-style slips)
+    for cname in ('UnitSquare', 'Circle'):
+        g2 = refint.Geo(cname)
+        gam2 = getattr(P, cname)()
+        SL2 = {False: SingleLayerOperator(MeshParametrized(gam2), pw_exact=False), True: SingleLayerOperator(MeshParametrized(gam2), pw_exact=True)}
+
+        def dummy2(t0, t1, x0, x1):
+            vs = [Vertex(t0, x0, -1), Vertex(t0, x1, -1), Vertex(t1, x1, -1), Vertex(t1, x0, -1)]
+            return DummyElement(vs, gam2.pw_gamma[g2.piece_of(x0, x1)])
+        L2 = g2.length
+        side = g2.starts[1] if not g2.circle else L2 / 4
+        for i in range(max(6, spec['n'] // 12)):
+            k = rng.randint(10, 16)
+            h = side * 2.0**-k
+            kind = ['identical', 'touch', 'corner', 'seam', 'disjoint', 'nested'][i % 6]
+            base = rng.choice([side * 0.5, side * 0.25, 0.0]) if kind not in ('corner', 'seam') else 0.0
+            if kind == 'identical':
+                X, Y = (base, base + h), (base, base + h)
+            elif kind == 'touch':
+                X, Y = (base, base + h), (base + h, base + h + h * rng.choice([1, 2, 0.5]))
+            elif kind == 'corner':
+                X, Y = (side - h, side), (side, side + h * rng.choice([1, 2]))
+            elif kind == 'seam':
+                X, Y = (0.0, h), (L2 - h * rng.choice([1, 2]), L2)
+            elif kind == 'disjoint':
+                X, Y = (base, base + h), (base + 3 * h, base + 4 * h)
+            else:
+                X, Y = (base, base + 2 * h), (base + h, base + 2 * h)
+            if rng.random() < 0.5:
+                X, Y = Y, X
+            ht = max(h * h / rng.choice([32, 8, 1]), 2.0**-40)
+            a = rng.choice([0.0, ht, 0.5])
+            tt = (a, a + ht)
+            rt = tt if rng.random() < 0.6 else (max(a - ht, 0.0), a) if a > 0 else tt
+            if slpairs.time_relation(tt, rt) == 'acausal':
+                continue
+            wit = {'curve': cname, 'test_t': tt, 'trial_t': rt, 'test_x': X, 'trial_x': Y, 'scale': 'tiny'}
+            ref, dis = refint.entry2(g2, tt, X, rt, Y)
+            D = (refint.diagonal(g2, tt[1] - tt[0], X[1] - X[0]) * refint.diagonal(g2, rt[1] - rt[0], Y[1] - Y[0]))**0.5
+            if not (dis <= REF_TOL * D):
+                acc.count('reference_not_converged')
+                continue
+            for exact in (False, True):
+                try:
+                    val = SL2[exact].bilform(dummy2(rt[0], rt[1], Y[0], Y[1]), dummy2(tt[0], tt[1], X[0], X[1]))
+                except Exception as ex:
+                    fr = repo_frame(ex)
+                    if fr is None:
+                        raise
+                    acc.violation('bilform-raised:%s:%s' % (fr[0], type(ex).__name__), 'tiny elements: raised %s at %s:%d' % (type(ex).__name__, fr[1], fr[2]), wit)
+                    continue
+                err = abs(val - ref) / D if np.isfinite(val) else float('inf')
+                acc.case('tiny|%s|%r|%s' % (cname, sorted(wit.items()), exact), None)
+                acc.seen('scale:tiny')
+                acc.worst_of('tiny-scale:%s' % kind, err)
+                if not (err <= TOL):
+                    acc.violation('entry-inexact:tiny-scale:%s:%s' % (kind, 'exact' if exact else 'quad'),
+                                  '%s: tiny elements (h_x=%.3g): %.17g vs reference %.17g, scaled error %.3e' % (cname, h, val, ref, err), dict(wit, pw_exact=exact))
     acc.sample({'mode': 'direct', 'n': spec['n'], 'kinds': kinds}, 'direct')
 
 
